@@ -44,6 +44,11 @@ Proof. reflexivity. Qed.
 Lemma gen_quad_x_base_is_npts : forall npts maxt1, gen_quad_x_base npts maxt1 = npts.
 Proof. reflexivity. Qed.
 
+Lemma gen_extrude_is_model : forall nv iscell t pz t0 t1,
+  gen_extrude_t nv iscell t = extrude_cells_t nv (cell_levels iscell) t /\
+  gen_line_levels pz t0 t1 = line_levels pz t0 t1 /\ gen_line_iscell pz t0 t1 = line_iscell pz t0 t1.
+Proof. intros; repeat split. Qed.
+
 (* ---- quadrilateral -> 2 triangles: the children's signed areas add up to the parent's, for EVERY quadrilateral *)
 Lemma quad_split_area : forall v0 v1 v2 v3 : pt2,
   let P := [v0; v1; v2; v3] in
